@@ -18,7 +18,9 @@ ID = "C08"
 RULE = (
     "Class models generated per case over a fixed skeleton (plain classes Evt/Jet/Trk, Generic[T] Box, Generic[T,U] Pair, "
     "generic subclass SubBox(Box[T]), concrete subclass IntBox(Box[int]), custom iterables MyIt(Iterable[T]), SubIt(MyIt[T]), "
-    "TrkIt(MyIt[Trk]), dataclass Info, a registered collection class adding Top/N/Rest): every class gets 2-4 methods whose "
+    "TrkIt(MyIt[Trk]), subclasses whose parameter list differs from what the base uses: Tag(Box[K], Generic[K,V]), "
+    "Tag2(Box[V], Generic[K,V]), Swap(Pair[U,T], Generic[T,U]), HalfPair(Pair[T,int]), It2(Iterable[V], Generic[K,V]), "
+    "TagInts(Tag[int,V]); dataclass Info, a registered collection class adding Top/N/Rest): every class gets 2-4 methods whose "
     "return annotation is drawn from a type grammar (scalars, classes, generic instantiations, own type variables, "
     "iterables of these, or no annotation). Expressions: method chains, Select/SelectMany/Where/First/Count/len/[0] on "
     "iterables, comparisons, and/or, + - * /, dict literals and dataclass fields by attribute and key, depth <=4; 1-3 stream "
@@ -44,10 +46,20 @@ SKEL = {
     "MyIt": (["T"], ["it", ["tv", "T"]]),
     "SubIt": (["T"], ["c", "MyIt", [["tv", "T"]]]),
     "TrkIt": ([], ["c", "MyIt", [["c", "Trk", []]]]),
+    # subclasses whose own parameter list differs from what the base uses (arity and order)
+    "Tag": (["K", "V"], ["c", "Box", [["tv", "K"]]]),
+    "Tag2": (["K", "V"], ["c", "Box", [["tv", "V"]]]),
+    "Swap": (["T", "U"], ["c", "Pair", [["tv", "U"], ["tv", "T"]]]),
+    "HalfPair": (["T"], ["c", "Pair", [["tv", "T"], ["int"]]]),
+    "It2": (["K", "V"], ["it", ["tv", "V"]]),
+    "TagInts": (["V"], ["c", "Tag", [["int"], ["tv", "V"]]]),
     "Coll": (["T"], None),  # registered collection class (operators for every iterable)
     "Info": ([], None),  # dataclass
 }
-ORDER = ["Trk", "Jet", "Evt", "Box", "Pair", "SubBox", "IntBox", "MyIt", "SubIt", "TrkIt"]
+ORDER = ["Trk", "Jet", "Evt", "Box", "Pair", "SubBox", "IntBox", "MyIt", "SubIt", "TrkIt", "Tag", "Tag2", "Swap", "HalfPair", "It2", "TagInts"]
+RENAMES = {"Box": ["Container", "Collection", "Holder"], "Pair": ["Mapping", "Both"], "MyIt": ["Sequence", "Collection2", "Reversible"], "Jet": ["Hashable", "Sized"]}
+GEN1 = ["Box", "SubBox", "MyIt", "SubIt", "HalfPair", "TagInts"]
+GEN2 = ["Pair", "Pair", "Tag", "Tag2", "Swap", "It2"]
 INFO_FIELDS = [["x", ["int"]], ["w", ["float"]], ["trk", ["c", "Trk", []]], ["trks", ["it", ["c", "Trk", []]]]]
 COLL_METHODS = [["Top", ["tv", "T"]], ["N", ["int"]], ["Rest", ["it", ["tv", "T"]]]]
 
@@ -128,9 +140,9 @@ def _type(draw, params, depth, top=True):
     if c == 4:
         return ["it", draw(_type(params, depth - 1, False))]
     if c == 5:
-        return ["c", draw(st.sampled_from(["Box", "SubBox", "MyIt", "SubIt"])), [draw(_type(params, depth - 1, False))]]
+        return ["c", draw(st.sampled_from(GEN1)), [draw(_type(params, depth - 1, False))]]
     if c == 6:
-        return ["c", "Pair", [draw(_type(params, depth - 1, False)), draw(_type(params, depth - 1, False))]]
+        return ["c", draw(st.sampled_from(GEN2)), [draw(_type(params, depth - 1, False)), draw(_type(params, depth - 1, False))]]
     if c == 7:
         return ["c", draw(st.sampled_from(["IntBox", "TrkIt", "Info"])), []]
     if c == 8 and params:
@@ -147,7 +159,7 @@ def _model(draw):
         params = SKEL[cls][0]
         n = draw(st.integers(2, 4))
         names = ["m0", "m1", "m2", "m3"][:n]
-        if cls in ("SubBox", "IntBox", "SubIt", "TrkIt"):
+        if SKEL[cls][1] is not None and cls != "MyIt":
             names = [x + "s" for x in names[: draw(st.integers(0, 2))]]  # own methods next to the inherited ones
         m[cls] = [[nm, draw(_type(params, 2))] for nm in names]
     # make sure the interesting edges exist
@@ -157,6 +169,12 @@ def _model(draw):
     m["Box"].append(["get", ["tv", "T"]])
     m["MyIt"].append(["Last", ["tv", "T"]])
     m["Pair"].append(["second", ["tv", "U"]])
+    m["Pair"].append(["first", ["tv", "T"]])
+    m["It2"].append(["Key", ["tv", "K"]])
+    # the sources of the mixed-arity subclasses must be reachable from the event
+    holder = draw(st.sampled_from(["Evt", "Jet"]))
+    a, b = draw(st.sampled_from(_SCAL + [["c", "Trk", []]])), draw(st.sampled_from(_SCAL + [["c", "Jet", []]]))
+    m[holder].append(["mixed", draw(st.sampled_from([["c", "Tag", [a, b]], ["c", "Tag2", [a, b]], ["c", "Swap", [a, b]], ["c", "HalfPair", [a]], ["c", "It2", [a, b]], ["c", "TagInts", [b]]]))])
     return m
 
 
@@ -315,7 +333,13 @@ def _case(draw, maxdepth):
             else:
                 stages.append(["SelectMany", p, e])
                 cur = el
-    return {"model": model, "stages": stages}
+    # class names are the user's: a model class may well be called like something in `typing`
+    rename = {}
+    if draw(st.integers(0, 3)) == 0:
+        for cls, pool in RENAMES.items():
+            if draw(st.booleans()):
+                rename[cls] = draw(st.sampled_from(pool))
+    return {"model": model, "stages": stages, "rename": rename}
 
 
 def strategy(tier):
@@ -377,15 +401,33 @@ def ann(t):
     raise ValueError(t)
 
 
-def build(model):
+def _tvars(t):
+    """type variables of a type IR in order of first appearance"""
+    out = []
+
+    def go(x):
+        if x[0] == "tv" and x[1] not in out:
+            out.append(x[1])
+        for a in (x[2] if x[0] == "c" else [x[1]] if x[0] == "it" else []):
+            go(a)
+
+    go(t)
+    return out
+
+
+def build(model, rename=None):
+    import re
+
     from func_adl import ObjectStream, register_func_adl_os_collection
 
     ns = {"Any": Any, "Generic": Generic, "Iterable": Iterable, "TypeVar": TypeVar, "dataclasses": dataclasses, "ObjectStream": ObjectStream}
-    src = ["T = TypeVar('T')", "U = TypeVar('U')"]
+    src = ["T = TypeVar('T')", "U = TypeVar('U')", "K = TypeVar('K')", "V = TypeVar('V')"]
     for cls in ORDER:
         params, base = SKEL[cls]
         if base is None:
             b = f"(Generic[{', '.join(params)}])" if params else ""
+        elif _tvars(base) != params:
+            b = f"({ann(base)}, Generic[{', '.join(params)}])"  # own parameter list differs from the order of appearance in the base
         else:
             b = f"({ann(base)})"
         src.append(f"class {cls}{b}:")
@@ -400,8 +442,13 @@ def build(model):
                "    def Top(self) -> T: ...\n    def N(self) -> int: ...\n    def Rest(self) -> Iterable[T]: ...")
     from vf.common import srcgen
 
-    mod = srcgen.load("\n".join(src), ns, prefix="vfmodel")  # a real module: string annotations resolve through sys.modules
+    text = "\n".join(src)
+    for old, new in (rename or {}).items():
+        text = re.sub(rf"\b{old}\b", new, text)
+    mod = srcgen.load(text, ns, prefix="vfmodel")  # a real module: string annotations resolve through sys.modules
     ns = mod.__dict__
+    for old, new in (rename or {}).items():
+        ns[old] = ns[new]  # the harness keeps using the skeleton's names
     ns["_vf_module"] = mod
     register_func_adl_os_collection(ns["Coll"])
     return ns
@@ -429,7 +476,7 @@ def _features(stages, model):
     for s in stages:
         go(s[2])
     txt = repr(stages)
-    for cls in ("Box", "Pair", "SubBox", "IntBox", "MyIt", "SubIt", "TrkIt"):
+    for cls in ORDER[3:]:
         for name, ret in model.get(cls, []):
             if f"'{name}'" in txt:
                 edge = True
@@ -520,7 +567,7 @@ def check(case) -> Result:
         async def execute_result_async(self, a, title=None):
             return a
 
-    ns = build(case["model"])
+    ns = build(case["model"], case.get("rename"))
     try:
         return _check(case, ns, DS)
     finally:
@@ -531,13 +578,15 @@ def check(case) -> Result:
 
 def _check(case, ns, DS) -> Result:
     texts = [f"{s[0]}(lambda {s[1]}: {render(s[2])})" for s in case["stages"]]
-    r = Result(sample={"query": texts, "model": {k: [[n, ann(t)] for n, t in v] for k, v in case["model"].items()}},
-               key=repr(case["model"]) + "|".join(texts))
+    r = Result(sample={"query": texts, "model": {k: [[n, ann(t)] for n, t in v] for k, v in case["model"].items()}, "class_renamed": case.get("rename") or {}},
+               key=repr(case["model"]) + "|".join(texts) + repr(case.get("rename") or {}))
     want = expected_types(case)
     steps, edge = _features(case["stages"], case["model"])
     r.labels.append(f"typed-steps:{min(steps, 6)}")
     if edge:
         r.labels.append("generic/inheritance-edge")
+    if case.get("rename"):
+        r.labels.append("class-named-like-typing")
     final = want[-1] if want else ["any"]
     r.labels.append("final:" + (final[0] if final[0] != "c" else "class"))
     r.nontrivial = final != ["any"] and (steps >= 2 or edge)
@@ -558,9 +607,9 @@ def _check(case, ns, DS) -> Result:
                 return r.fail(f"Where accepted a filter of declared type {ann(stage[3])}: {lam}")
             s = getattr(s, op)(lam)
         except Exception as ex:
-            return r.fail(f"{op}({lam!r}) raised {type(ex).__name__}: {ex}; model {r.sample['model']}")
+            return r.fail(f"{op}({lam!r}) raised {type(ex).__name__}: {ex}; model {r.sample['model']} renamed {r.sample['class_renamed']}")
         if not _type_eq(s.item_type, w, ns):
-            return r.fail(f"after {txt}: item type is {s.item_type!r}, annotations imply {ann(w) if w[0] != 'rec' else w}; model {r.sample['model']}")
+            return r.fail(f"after {txt}: item type is {s.item_type!r}, annotations imply {ann(w) if w[0] != 'rec' else w}; model {r.sample['model']} renamed {r.sample['class_renamed']}")
     return r
 
 
